@@ -166,7 +166,7 @@ def t_masked_callee(k):
 def t_window_on_alloc(k):
     """allocation -> window statement -> the allocation is only used through the window afterwards
     (last-use / free placement), in straight-line code, in a branch or in a loop"""
-    where = k % 3
+    where = k % 4
     use = [["for", "i", "0", "4", [["assign", "y", ["i"], "w[i] + 1.0"]], "seq"]]
     core = [
         ["alloc", "xb", "f32", ["8"], "DRAM"],
@@ -177,8 +177,11 @@ def t_window_on_alloc(k):
         body = core + use
     elif where == 1:
         body = core + [["if", "n > 1", use, [["assign", "y", ["0"], "w[0]"]]], ["assign", "y", ["1"], "y[0]"]]
-    else:
+    elif where == 2:
         body = [["for", "r", "0", "n", core + [["window", "w2", "w", [["iv", "1", "3"]]]] + [["assign", "y", ["0"], "w2[1]"]] + use, "seq"]]
+    else:
+        # after the second-level window is taken only IT is mentioned
+        body = core + [["window", "w2", "w", [["iv", "1", "3"]]], ["assign", "y", ["3"], "1.0"], ["for", "i", "0", "2", [["reduce", "y", ["i"], "w2[i]"]], "seq"], ["assign", "y", ["2"], "w2[0] + w2[1]"]]
     main = {"name": "foo", "args": [_arg("n", "size"), _arg("y", "tensor", dims=["4"])], "preds": [], "body": body}
     return {"prec": "f32", "cfg": False, "callees": [], "main": main}
 
